@@ -25,9 +25,9 @@ LEVEL_TEXT = {
     "C12": "Stateful generated write/read histories of Digital Metadata against a dict model.",
     "C13": "Boundary-directed (rate, cadence, index) triples written with the real writer; location compared with big-integer arithmetic.",
     "C14": "Generated directory trees x option sets compared with a set-theoretic oracle computed from the generated description.",
-    "C15": "Exhaustive enumeration of the bounded event/path grammar, differential against listing.",
-    "C16": "Exhaustive short event sequences plus long stateful histories on real files against a model of the tracked set.",
-    "C17": "Generated recordings and perturbed event histories through the mirror handlers with file-system primitives wrapped for checkpoints.",
+    "C15": "Exhaustive enumeration of the bounded event/path grammar, differential against listing; plus live scenarios with the real DirWatcher threads (verdicts by sentinel, never by timeout).",
+    "C16": "Exhaustive short event sequences plus long stateful histories on real files against a model of the tracked set (API and command-line construction, windows, relative roots); plus live scenarios with the real observer threads.",
+    "C17": "Generated recordings and perturbed event histories through the mirror handlers with file-system primitives wrapped for checkpoints (API and command-line construction); plus live scenarios with DigitalRFMirror.start() and the real observer threads.",
     "C18": "Generated trees x command lines, differential against listing.",
     "C19": "Stateful generated histories (shared with C05) comparing every getter with model counters after every step.",
     "C20": "Stateful generated interleavings of metadata/RF writes and reads with tree snapshots around every read-only call.",
